@@ -15,7 +15,9 @@ import (
 	"sort"
 
 	"github.com/samber/lo"
+	appsv1 "k8s.io/api/apps/v1"
 	corev1 "k8s.io/api/core/v1"
+	metav1 "k8s.io/apimachinery/pkg/apis/meta/v1"
 
 	v1 "sigs.k8s.io/karpenter/pkg/apis/v1"
 	"sigs.k8s.io/karpenter/pkg/cloudprovider"
@@ -42,6 +44,53 @@ type TolSpec struct {
 }
 
 func (s *sim) projectC06() bool { return s.sc.Options.Project == "c06" }
+
+// createDaemonSets stores the scenario's DaemonSet objects (before the pods, which refer to them as owners).
+func (s *sim) createDaemonSets() {
+	s.dsRefs = map[string]metav1.OwnerReference{}
+	for _, d := range s.sc.DaemonSets {
+		ds := sched.BuildDaemonSet(sched.DS{Name: d.Name, Ns: "default", CPU: d.CPU, Mem: d.MemMi, Sel: d.Sel})
+		s.w.EnvCreate(ds)
+		s.dsRefs[d.Name] = metav1.OwnerReference{APIVersion: "apps/v1", Kind: "DaemonSet", Name: ds.Name, UID: ds.UID,
+			Controller: lo.ToPtr(true), BlockOwnerDeletion: lo.ToPtr(true)}
+	}
+}
+
+// deliverDaemonSets runs the real DaemonSet informer for every stored DaemonSet (after the pods: the cluster caches one
+// pod per DaemonSet).
+func (s *sim) deliverDaemonSets() {
+	var dss appsv1.DaemonSetList
+	s.w.List(&dss)
+	for i := range dss.Items {
+		if _, err := s.infDS.Reconcile(s.ctx, req(dss.Items[i].Name, dss.Items[i].Namespace)); err != nil {
+			s.w.Emit(trace.M{"e": "Note", "what": "informer-error", "kind": "DaemonSet", "name": dss.Items[i].Name, "msg": err.Error()})
+		}
+	}
+}
+
+// sgDaemonSets: the DaemonSets as stored in the API, in the ds record shape of SchedulingGuards.
+func (s *sim) sgDaemonSets(u *universe) []trace.M {
+	var dss appsv1.DaemonSetList
+	s.w.List(&dss)
+	out := []trace.M{}
+	for i := range dss.Items {
+		d := &dss.Items[i]
+		cpu, mem := 0, 0
+		for _, c := range d.Spec.Template.Spec.Containers {
+			cpu += int(c.Resources.Requests.Cpu().MilliValue())
+			mem += int(c.Resources.Requests.Memory().Value() >> 20)
+		}
+		sel := shortLabels(d.Spec.Template.Spec.NodeSelector)
+		u.addM(sel)
+		tol := []trace.M{}
+		for _, t := range d.Spec.Template.Spec.Tolerations {
+			tol = append(tol, trace.M{"key": t.Key, "op": string(t.Operator), "value": t.Value, "effect": string(t.Effect)})
+		}
+		out = append(out, trace.M{"name": d.Name, "ns": d.Namespace, "cpu": cpu, "mem": mem, "sel": sel, "terms": []any{}, "tol": tol,
+			"ports": []trace.M{}})
+	}
+	return out
+}
 
 func sgTaints(ts []corev1.Taint) []trace.M {
 	out := []trace.M{}
@@ -186,6 +235,7 @@ func (s *sim) sgProject() (trace.M, *universe) {
 		}
 		pods = append(pods, ap)
 	}
+	ds := s.sgDaemonSets(u)
 	unum := map[string][]int{}
 	for k := range u.keys {
 		u.add(k, "~")
@@ -196,7 +246,7 @@ func (s *sim) sgProject() (trace.M, *universe) {
 		unum[k] = nums
 	}
 	return trace.M{"universe": u.keys, "unum": unum, "pods": pods, "nodes": nodes, "types": types,
-		"ds": []trace.M{}, "pvcs": []trace.M{}, "pvs": []trace.M{}, "scs": []trace.M{}}, u
+		"ds": ds, "pvcs": []trace.M{}, "pvs": []trace.M{}, "scs": []trace.M{}}, u
 }
 
 // sgReqs logs requirements for EVERY universe key (same record as the scheduling driver's ReqRec).
